@@ -92,16 +92,23 @@ theorem textLiteral_pd (x s s' : Bytes) (h : (textLiteral (x ++ s)).1 + 2 ≤ x.
     have hge : x.length ≤ countWhile (· == 0x27) (x ++ s) := by omega
     have hall := countWhile_ge_all _ x s hge
     have hall' : ∀ b ∈ x, b = 0x27 := fun b hb => by simpa using hall b hb
+    have hrun := textLiteralLoop_quoteRun x s ((x ++ s).length + 1) hall' (by omega)
     unfold textLiteral at h
     simp only at h
-    split at h
-    · split at h
-      · simp only at h; omega
-      · simp only [List.length_append] at h; omega
-    · have := textLiteralLoop_quoteRun x s ((x ++ s).length + 1) hall' (by omega)
-      omega
+    repeat' split at h
+    all_goals (simp only [List.length_append] at h hrun hge; omega)
 
 /-! ### assembler literals -/
+
+theorem asmTextLiteralRest_other (b : UInt8) (h1 : b ≠ 0x5C) (h2 : b ≠ 0x22) (t : Bytes) :
+    asmTextLiteralRest (b :: t) =
+      if b == 0x0A || b == 0x0D then (0, .tUnterminated)
+      else ((asmTextLiteralRest t).1 + 1, (asmTextLiteralRest t).2) := by
+  rw [asmTextLiteralRest] <;> first
+    | (split
+       · rfl
+       · cases asmTextLiteralRest t; rfl)
+    | (intros; simp_all)
 
 theorem asmTextLiteralRest_pd : ∀ (x s s' : Bytes), (asmTextLiteralRest (x ++ s)).1 + 1 ≤ x.length →
     asmTextLiteralRest (x ++ s') = asmTextLiteralRest (x ++ s)
@@ -115,15 +122,7 @@ theorem asmTextLiteralRest_pd : ∀ (x s s' : Bytes), (asmTextLiteralRest (x ++ 
       | cons c r => rw [asmTextLiteralRest] at h; simp only at h; omega
     · by_cases h2 : b = 0x22
       · subst h2; simp [asmTextLiteralRest]
-      · have e : ∀ t : Bytes, asmTextLiteralRest (b :: t) =
-            if b == 0x0A || b == 0x0D then (0, .tUnterminated)
-            else ((asmTextLiteralRest t).1 + 1, (asmTextLiteralRest t).2) := by
-          intro t
-          rw [asmTextLiteralRest]
-          · rfl
-          · intro h; exact h1 h
-          · intro x r h; simp only [List.cons.injEq] at h; exact h1 h.1
-          · intro x h; simp only [List.cons.injEq] at h; exact h2 h.1
+      · have e := asmTextLiteralRest_other b h1 h2
         rw [e, e] at *
         by_cases h3 : (b == 0x0A || b == 0x0D) = true
         · simp [h3]
@@ -139,15 +138,7 @@ theorem asmTextLiteralRest_pd : ∀ (x s s' : Bytes), (asmTextLiteralRest (x ++ 
       rw [this]
     · by_cases h2 : b = 0x22
       · subst h2; simp [asmTextLiteralRest]
-      · have e : ∀ t : Bytes, asmTextLiteralRest (b :: t) =
-            if b == 0x0A || b == 0x0D then (0, .tUnterminated)
-            else ((asmTextLiteralRest t).1 + 1, (asmTextLiteralRest t).2) := by
-          intro t
-          rw [asmTextLiteralRest]
-          · rfl
-          · intro h; exact h1 h
-          · intro x r h; simp only [List.cons.injEq] at h; exact h1 h.1
-          · intro x h; simp only [List.cons.injEq] at h; exact h2 h.1
+      · have e := asmTextLiteralRest_other b h1 h2
         rw [e, e] at *
         by_cases h3 : (b == 0x0A || b == 0x0D) = true
         · simp [h3]
@@ -161,18 +152,15 @@ theorem asmNumberRest_pd (first : UInt8) (x s s' : Bytes) (h : (asmNumberRest fi
   have hle : countHex (x ++ s) ≤ (asmNumberRest first (x ++ s)).1 := by
     unfold asmNumberRest
     simp only
-    split
-    · split
-      · simp
-      · split
-        · simp
-        · split <;> simp
-    · split <;> simp
+    repeat' split
+    all_goals simp
+  have hcle : countHex (x ++ s) + 1 ≤ x.length := by omega
   have hc : countHex (x ++ s') = countHex (x ++ s) :=
-    countWhile_pd isHexByte x s s' (by unfold countHex at hle; omega)
-  unfold asmNumberRest at h ⊢
-  simp only [hc] at h ⊢
-  generalize hn : countHex (x ++ s) = n at *
+    countWhile_pd isHexByte x s s' (by unfold countHex at hcle; omega)
+  clear h hle
+  unfold asmNumberRest
+  simp only [hc]
+  generalize countHex (x ++ s) = n at *
   have hd : ∀ t : Bytes, (x ++ t).drop n = x.drop n ++ t := fun t => List.drop_append_of_le_length (by omega)
   rw [hd s, hd s']
   obtain ⟨c, y, hy⟩ : ∃ c y, x.drop n = c :: y := by
@@ -183,12 +171,7 @@ theorem asmNumberRest_pd (first : UInt8) (x s s' : Bytes) (h : (asmNumberRest fi
   simp only [List.cons_append]
   have hg : ∀ t : Bytes, (x ++ t).getD (n - 1) 0 = x.getD (n - 1) 0 := by
     intro t
-    by_cases hz : n = 0
-    · subst hz
-      cases x with
-      | nil => simp at h
-      | cons a x => simp
-    · exact getD_append_left x t (n - 1) 0 (by omega)
+    exact getD_append_left x t (n - 1) 0 (by omega)
   rw [hg s, hg s']
 
 end Pasfmt
